@@ -622,5 +622,5 @@ func run12(c drv.Case, res *drv.Result) {
 }
 
 func TestC12(t *testing.T) {
-	drv.Main(t, drv.Driver{ID: "C12", Gen: gen12, Run: run12, CaseTimeout: 10 * time.Minute})
+	drv.Main(t, drv.Driver{ID: "C12", Gen: gen12, Run: run12, CaseTimeout: 30 * time.Minute})
 }
